@@ -627,7 +627,12 @@ def run_replay(path):
             p1.shutdown(False)
     elif isinstance(art["case"], dict) and "_call" in art["case"]:
         r = _call(mod, art["case"]["_call"], art["case"]["payload"])
-        vio = [(r.key, r.what)] if isinstance(r, LibraryRaised) else []
+        if isinstance(r, LibraryRaised):
+            vio = [(r.key, r.what)]
+        elif isinstance(r, dict) and r.get("violations"):
+            vio = [(v[0], v[1]) for v in r["violations"]]
+        else:
+            vio = []
     elif hasattr(mod, "replay"):
         vio = mod.replay(art["case"])
     else:
